@@ -5,6 +5,7 @@ package main
 // assumptions when used.
 
 import (
+	"os"
 	"fmt"
 	"go/token"
 	"go/types"
@@ -32,6 +33,7 @@ var intrinsicNotes = map[string]string{
 	"strconv.Atoi":       "native: strconv.Atoi on concrete values only",
 	"fmt.Sprintf":        "native: fmt.Sprintf on concrete arguments; with a symbolic argument only the literal prefix of the format is kept",
 	"strings.Builder":    "model: strings.Builder's methods are interpreted from their real SSA (buf grows by append, growth counted as an allocation-site event) except copyCheck (no-op: the self-pointer trick needs unsafe) and String (the bytes of buf, no allocation, as in the real implementation)",
+	"strings.native":     "native: strings.Contains/Index/LastIndex/EqualFold/Count on concrete arguments only",
 	"http.Header":        "model: net/http.Header.{Add,Set,Get,Del,Values} over the map representation, keys canonicalised natively",
 	"sync.RWMutex":       "model: sync.RWMutex/Mutex as a lock-state object (no blocking, no scheduler)",
 	"idna":               "native: golang.org/x/net/idna profile construction and ToASCII run natively on concrete hosts",
@@ -50,6 +52,11 @@ func init() {
 		"strings.ToLower":                        iToLower,
 		"strings.ToUpper":                        iToUpper,
 		"strings.Join":                           iJoin,
+		"strings.Contains":                       iStringsNative2,
+		"strings.Index":                          iStringsNative2,
+		"strings.LastIndex":                      iStringsNative2,
+		"strings.EqualFold":                      iStringsNative2,
+		"strings.Count":                          iStringsNative2,
 		"strings.Split":                          iSplit,
 		"strconv.Itoa":                           iItoa,
 		"strconv.Atoi":                           iAtoi,
@@ -308,6 +315,29 @@ func iItoa(w *W, fn *ssa.Function, args []Value, pos token.Pos) Value {
 		w.allocEvent("strconv.Itoa")
 	}
 	return w.strConst(strconv.Itoa(int(v)))
+}
+
+// iStringsNative2: two-string functions of package strings whose real bodies
+// end in assembly (bytealg); run natively on concrete arguments, unsupported
+// (hence inconclusive, never a pass) on symbolic ones.
+func iStringsNative2(w *W, fn *ssa.Function, args []Value, pos token.Pos) Value {
+	a := w.cstr(args[0], fn.String())
+	b := w.cstr(args[1], fn.String())
+	w.use("strings.native")
+	switch fn.Name() {
+	case "Contains":
+		return w.ts.Bool(strings.Contains(a, b))
+	case "Index":
+		return w.ts.Int64(int64(strings.Index(a, b)))
+	case "LastIndex":
+		return w.ts.Int64(int64(strings.LastIndex(a, b)))
+	case "EqualFold":
+		return w.ts.Bool(strings.EqualFold(a, b))
+	case "Count":
+		return w.ts.Int64(int64(strings.Count(a, b)))
+	}
+	unsupp("native thunk for %s", fn.String())
+	return nil
 }
 
 func iAtoi(w *W, fn *ssa.Function, args []Value, pos token.Pos) Value {
@@ -785,6 +815,14 @@ func (w *W) prim(fn *ssa.Function, args []Value, pos token.Pos) Value {
 		return nil
 	case "zzTier":
 		return ts.Int64(int64(w.e.opts.Tier))
+	case "zzDevFocus":
+		// development aid: GOSYM_FOCUS=<n> restricts scenario-based harnesses to
+		// one scenario; unset (-1) in every registered command
+		n := int64(-1)
+		if v := os.Getenv("GOSYM_FOCUS"); v != "" {
+			fmt.Sscan(v, &n)
+		}
+		return ts.Int64(n)
 	case "zzSymbolic":
 		return ts.tt
 	case "zzShared":
